@@ -1,0 +1,14 @@
+// +build verif
+
+package ed25519
+
+// verifOnFallback, when set by a verification harness, is called each time
+// VerifyBatch abandons the batch equation for a chunk and falls back to
+// per-signature verification.  It is never set by the library itself.
+var verifOnFallback func(offset, batchSize int)
+
+func verifFallback(offset, batchSize int) {
+	if verifOnFallback != nil {
+		verifOnFallback(offset, batchSize)
+	}
+}
